@@ -137,6 +137,7 @@ def run(cx):
             ob.require(len(cs) >= 1 and all(c.bb not in cyc for c in cs), f"no-retry/{path}", f"{path}: the RPC dispatch is on a cycle (retry loop) or missing", path, b.loc())
             n = len([c for c in cs if name_matches(c.fn, what[0])])
             ob.require(n == 1, f"single-dispatch/{path}", f"{path}: {n} dispatch sites", path, b.loc())
+        check_api_forwarder(ob, prog, "rpc")          # Network::rpc(peer, request) = NetworkInner::rpc(peer, request), nothing else
         # the closure handed to service_fn calls do_rpc once with the given request
         pc = cx.impl_method(PEER, "Service", "call")
         ds = prog.callers_of(f"{PEER}::do_rpc")
@@ -339,3 +340,12 @@ def run(cx):
             kids = [k for k in prog.children(b)]
             ob.require(not [k for k in kids if k.coroutine], f"sendstream/{m}/no-future", f"{b.path} builds an async block / future (not cancel-safe across polls)", b.path)
         ob.floor(n, 3, "forwarding calls inspected")
+
+    with cx.ob("C02.9", "R-PATHSEQ", "one layer out: the router hands the handler the request it received - one dispatch per request, route untouched (C16.1 re-evaluated)") as ob:
+        from . import c16
+        sub = cx.__class__("C02", prog, cx.tier, cx.config, cx.tree, repo=cx.repo)
+        c16.run(sub)
+        w = [x for x in sub.obs if x.oid in ['C16.1']]
+        ob.count(sum(x.evals for x in w))
+        bad = [v for x in w for v in x.violations]
+        ob.require(len(w) == 1 and not bad, "router/request-unchanged", "the router can rewrite or re-dispatch a request: " + "; ".join(str(v.msg) for v in bad)[:300], "anemo::routing::Router")
